@@ -47,6 +47,9 @@ fn engine_sh() {
             writeln!(out, "bad-request").unwrap();
             continue;
         }
+        // a rendering that panics is an answer too (`panic`), not the end of the run
+        let caught = std::panic::catch_unwind(std::panic::AssertUnwindSafe(|| {
+        let mut out: Vec<u8> = Vec::new();
         match toks[0] {
             "sh" if toks.len() >= 2 => {
                 let argv: Vec<Vec<u8>> = toks[1..].iter().map(|t| unhex(t)).collect();
@@ -101,7 +104,7 @@ fn engine_sh() {
                 }
                 if stages.len() < 2 || stages.iter().any(|st| st.is_empty()) {
                     writeln!(out, "bad-request").unwrap();
-                    continue;
+                    return out;
                 }
                 // alternate the composition shape with the stage count: from_exec_iter / chained `|`
                 let p: Pipeline = if stages.len() % 2 == 0 {
@@ -124,6 +127,12 @@ fn engine_sh() {
                 }
             }
             _ => writeln!(out, "bad-request").unwrap(),
+        }
+        out
+        }));
+        match caught {
+            Ok(bytes) => out.write_all(&bytes).unwrap(),
+            Err(_) => writeln!(out, "panic").unwrap(),
         }
     }
 }
